@@ -385,6 +385,10 @@ def classify(case, impl, model):
             return "P", "member name accepted by safeTarEntryPath that the model rejects: impl=%r" % impl
         return "G", "safeTarEntryPath differs: impl=%r model=%r" % (impl, model)
     si, sm, ops = segs(impl), segs(model), ops_of(case)
+    if "!commit-order" in impl:
+        return "P", ("ApplyOne no longer lands current-manifest.yaml before the journal's completed phase (renames observed "
+                     "between stage 12 and 13); a death between the two now leaves a state the label-35 cases do not "
+                     "cover: impl=%r" % [s for s in si if "!commit-order" in s][0])
     if "STALE" in impl and "STALE" not in model:
         k = [i for i, s in enumerate(si) if "STALE" in s][0]
         return "P", ("op #%d (%s) is reported as %s but current-manifest does not name the version of the installed "
